@@ -434,3 +434,416 @@ Proof.
   - apply GInv_create_group_rows; assumption.
   - apply XInv_create_group_rows; assumption.
 Qed.
+
+(* ------------------------------------------------------------------ create batch *)
+
+Lemma no_group_of_fresh_batch s g : XInv s -> find_group s (next_batch s) g = None.
+Proof.
+  intros [X1 X2 X3]. apply find_none_iff. intros x Hx.
+  destruct ((g_batch x =? next_batch s) && (g_id x =? g)) eqn:K; [|reflexivity]. exfalso.
+  apply andb_true_iff in K. destruct K as [K1 K2].
+  pose proof (X3 x Hx) as Hb. apply find_batch_iff in Hb. apply in_map_iff in Hb. destruct Hb as (bt & E & Hbt).
+  pose proof (X2 bt Hbt). lia.
+Qed.
+
+Lemma DInv_create_batch s user bp token m : DInv s -> DInv (fst (do_create_batch s user bp token m)).
+Proof.
+  intros D. unfold do_create_batch. destruct (negb m); [exact D|].
+  destruct (find _ (batches s)) as [x|]; [exact D|]. cbn [fst].
+  set (id := next_batch s).
+  set (s1 := s <| batches ::= fun l => l ++ [mkBatch id user bp token false 0 false] |> <| next_batch := id + 1 |>).
+  pose proof D as D0. apply DInv_split in D0. destruct D0 as (J & G & X).
+  assert (Hb1 : find_batch s1 id <> None).
+  { apply find_batch_iff. unfold s1. cbn. rewrite map_app. apply in_or_app. right. left. reflexivity. }
+  assert (D1 : DInv s1).
+  { apply DInv_split. split; [|split].
+    - apply (JInv_ext s); try reflexivity. exact J.
+    - apply (GInv_ext s); try reflexivity. exact G.
+    - destruct X as [X1 X2 X3]. constructor.
+      + exact X1.
+      + unfold s1. cbn. intros bt Hbt. apply in_app_or in Hbt. destruct Hbt as [Hbt|[<-|[]]].
+        * specialize (X2 bt Hbt). unfold id. lia.
+        * cbn. lia.
+      + intros g Hg. apply find_batch_iff. unfold s1. cbn. rewrite map_app. apply in_or_app. left.
+        apply find_batch_iff. apply (X3 g Hg). }
+  apply DInv_create_group_rows; try assumption.
+  - change (find_group s1 id 0) with (find_group s (next_batch s) 0). apply no_group_of_fresh_batch. exact X.
+  - intros g' R. lia.
+  - reflexivity.
+  - discriminate.
+Qed.
+
+Lemma DAux_create_batch s user bp token m : DAux s -> DAux (fst (do_create_batch s user bp token m)).
+Proof.
+  intros A. unfold do_create_batch. destruct (negb m); [exact A|].
+  destruct (find _ (batches s)) as [x|]; [exact A|]. cbn [fst].
+  apply (DAux_ext s); try reflexivity. exact A.
+Qed.
+
+(* ------------------------------------------------------------------ create update *)
+
+Definition lu_step (b : Z) (acc : option update) (x : update) : option update :=
+  if u_batch x =? b then
+    match acc with
+    | Some y => if u_id y <? u_id x then Some x else acc
+    | None => Some x
+    end else acc.
+
+Lemma last_update_eq s b : last_update s b = fold_left (lu_step b) (updates s) None.
+Proof. reflexivity. Qed.
+
+Lemma last_update_fold b l : forall acc,
+  (forall y, acc = Some y -> u_batch y = b) ->
+  match fold_left (lu_step b) l acc with
+  | Some m => u_batch m = b /\ (In m l \/ acc = Some m) /\
+              (forall x, In x l -> u_batch x = b -> u_id x <= u_id m) /\
+              (forall y, acc = Some y -> u_id y <= u_id m)
+  | None => acc = None /\ forall x, In x l -> u_batch x <> b
+  end.
+Proof.
+  induction l as [|x l IH]; intros acc Hacc; cbn [fold_left].
+  - destruct acc as [m|].
+    + split; [apply Hacc; reflexivity|]. split; [right; reflexivity|]. split; [intros x []|].
+      intros y E. injection E as ->. lia.
+    + split; [reflexivity | intros x []].
+  - assert (Hacc' : forall y, lu_step b acc x = Some y -> u_batch y = b).
+    { unfold lu_step. destruct (u_batch x =? b) eqn:Eb; [|exact Hacc].
+      destruct acc as [y0|].
+      - destruct (u_id y0 <? u_id x); [|exact Hacc]. intros y E. injection E as <-. lia.
+      - intros y E. injection E as <-. lia. }
+    specialize (IH (lu_step b acc x) Hacc').
+    destruct (fold_left (lu_step b) l (lu_step b acc x)) as [m|].
+    + destruct IH as (I1 & I2 & I3 & I4). split; [exact I1|].
+      unfold lu_step in I2, I4.
+      destruct (u_batch x =? b) eqn:Eb.
+      * destruct acc as [y0|].
+        -- destruct (u_id y0 <? u_id x) eqn:Elt.
+           ++ split; [|split].
+              ** destruct I2 as [I2|I2]; [left; right; exact I2 | injection I2 as <-; left; left; reflexivity].
+              ** intros x' [<-|Hx'] Hb'; [apply I4; reflexivity | apply I3; assumption].
+              ** intros y E. injection E as <-. specialize (I4 x eq_refl). lia.
+           ++ split; [|split].
+              ** destruct I2 as [I2|I2]; [left; right; exact I2 | right; exact I2].
+              ** intros x' [<-|Hx'] Hb'; [specialize (I4 y0 eq_refl); lia | apply I3; assumption].
+              ** exact I4.
+        -- split; [|split].
+           ++ destruct I2 as [I2|I2]; [left; right; exact I2 | injection I2 as <-; left; left; reflexivity].
+           ++ intros x' [<-|Hx'] Hb'; [apply I4; reflexivity | apply I3; assumption].
+           ++ intros y E. discriminate.
+      * split; [|split].
+        -- destruct I2 as [I2|I2]; [left; right; exact I2 | right; exact I2].
+        -- intros x' [<-|Hx'] Hb'; [lia | apply I3; assumption].
+        -- exact I4.
+    + destruct IH as (I1 & I2). unfold lu_step in I1.
+      destruct (u_batch x =? b) eqn:Eb.
+      * destruct acc as [y0|]; [destruct (u_id y0 <? u_id x)|]; discriminate.
+      * split; [exact I1|]. intros x' [<-|Hx']; [lia | apply I2; exact Hx'].
+Qed.
+
+(** [last_update] returns the update of the batch with the greatest id. *)
+Lemma last_update_spec s b :
+  match last_update s b with
+  | Some m => In m (updates s) /\ u_batch m = b /\ (forall x, In x (updates s) -> u_batch x = b -> u_id x <= u_id m)
+  | None => forall x, In x (updates s) -> u_batch x <> b
+  end.
+Proof.
+  rewrite last_update_eq. pose proof (last_update_fold b (updates s) None) as H.
+  destruct (fold_left (lu_step b) (updates s) None) as [m|].
+  - destruct H as (H1 & H2 & H3 & _); [discriminate|]. destruct H2 as [H2|H2]; [|discriminate]. auto.
+  - destruct H as (_ & H); [discriminate | exact H].
+Qed.
+
+Lemma committed_app_uncommitted s s' n b u :
+  updates s' = updates s ++ [n] -> u_committed n = false -> committed s' b u = committed s b u.
+Proof.
+  intros E Hn. unfold committed, find_update. rewrite E.
+  destruct (find _ (updates s)) as [x|] eqn:F.
+  - rewrite (find_app_some _ _ _ _ F). reflexivity.
+  - rewrite (find_app_none _ _ _ F). cbn [find]. destruct (_ && _); [exact Hn | reflexivity].
+Qed.
+
+(* [job_ok] / [edge_ok] depend on the updates only through [committed] and the found rows *)
+Lemma job_ok_committed_ext s s' x :
+  jobs s' = jobs s -> parents s' = parents s -> (forall b u, committed s' b u = committed s b u) ->
+  job_ok s x -> job_ok s' x.
+Proof.
+  intros Ej Ep Hc. unfold job_ok, jcommitted, npp_spec, pstate, parents_of, edges_of, find_job.
+  rewrite Ej, Ep, Hc. destruct (committed s (j_batch x) (j_update x)); [|tauto].
+  intros (A & B & C & D). repeat split; try tauto.
+  intros p Hp. destruct (C p Hp) as (y & Fy & Cy). exists y. rewrite Hc. tauto.
+Qed.
+
+Lemma n_jobs_of_zero s b u : JInv s -> find_update s b u = None -> n_jobs_of s b u = 0.
+Proof.
+  intros J F. unfold n_jobs_of. rewrite filter_all_false; [reflexivity|].
+  intros x Hx. destruct ((j_batch x =? b) && (j_update x =? u)) eqn:K; [|reflexivity]. exfalso.
+  apply andb_true_iff in K. destruct K as [K1 K2].
+  destruct (ju_jrange _ J x Hx) as (up & Fu & _). replace (j_batch x) with b in Fu by lia.
+  replace (j_update x) with u in Fu by lia. congruence.
+Qed.
+
+Lemma JInv_add_update s n :
+  JInv s -> DAux s ->
+  u_committed n = false -> 0 <= u_njobs n ->
+  match last_update s (u_batch n) with
+  | Some l => u_id n = u_id l + 1 /\ u_start_job n = u_start_job l + u_njobs l
+  | None => u_id n = 1 /\ u_start_job n = 1
+  end ->
+  JInv (s <| updates ::= fun l => l ++ [n] |>).
+Proof.
+  intros J A Hunc Hnj Hlast. pose proof J as [J1 J2 J3 J4 J5 J6 J7 J8 J9].
+  set (s' := s <| updates ::= fun l => l ++ [n] |>).
+  assert (Eu : updates s' = updates s ++ [n]) by reflexivity.
+  assert (Hc : forall b u, committed s' b u = committed s b u) by (intros; apply (committed_app_uncommitted s s' n); auto).
+  pose proof (last_update_spec s (u_batch n)) as LS.
+  (* the new key is fresh *)
+  assert (Hfresh : forall x, In x (updates s) -> u_batch x = u_batch n -> u_id x < u_id n).
+  { intros x Hx Hb. destruct (last_update s (u_batch n)) as [l|].
+    - destruct LS as (_ & _ & Hmax). destruct Hlast as [-> _]. specialize (Hmax x Hx Hb). lia.
+    - exfalso. apply (LS x Hx Hb). }
+  assert (Hnone : find_update s (u_batch n) (u_id n) = None).
+  { apply find_none_iff. intros x Hx. destruct ((u_batch x =? u_batch n) && (u_id x =? u_id n)) eqn:K; [|reflexivity].
+    exfalso. apply andb_true_iff in K. destruct K as [K1 K2]. assert (u_batch x = u_batch n) by lia.
+    specialize (Hfresh x Hx H). lia. }
+  assert (Hfu : forall b u up, find_update s b u = Some up -> find_update s' b u = Some up).
+  { intros b u up F. unfold find_update. rewrite Eu. apply find_app_some. exact F. }
+  constructor.
+  - exact J1.
+  - rewrite Eu, map_app. cbn [map]. apply NoDup_app_intro; [exact J2 | repeat constructor; intros [] |].
+    intros k Hk [<-|[]]. apply in_map_iff in Hk. destruct Hk as (x & E & Hx). injection E as E1 E2.
+    specialize (Hfresh x Hx E1). lia.
+  - rewrite Eu. intros u Hu. apply in_app_or in Hu. destruct Hu as [Hu|[<-|[]]]; [apply (J3 u Hu)|].
+    split; [exact Hnj|]. destruct (last_update s (u_batch n)) as [l|].
+    + destruct LS as (Hl & _ & _). destruct Hlast as [-> ->]. pose proof (J3 l Hl). lia.
+    + destruct Hlast as [-> ->]. lia.
+  - rewrite Eu. intros x y Hx Hy Hb Hlt. apply in_app_or in Hx. apply in_app_or in Hy.
+    destruct Hx as [Hx|[<-|[]]], Hy as [Hy|[<-|[]]].
+    + apply J4; assumption.
+    + destruct (last_update s (u_batch n)) as [l|]; [|exfalso; apply (LS x Hx Hb)].
+      destruct LS as (Hl & Hlb & Hmax). destruct Hlast as [Hid ->].
+      specialize (Hmax x Hx Hb). destruct (Z.eq_dec (u_id x) (u_id l)) as [E|E].
+      * assert (x = l); [|subst; lia]. apply (NoDup_map_inj uk (updates s)); auto. unfold uk. congruence.
+      * pose proof (J4 x l Hx Hl (eq_trans Hb (eq_sym Hlb)) ltac:(lia)). pose proof (J3 l Hl). lia.
+    + specialize (Hfresh y Hy (eq_sym Hb)). lia.
+    + lia.
+  - intros x Hx. destruct (J5 x Hx) as (up & F & R). exists up. split; [apply Hfu; exact F | exact R].
+  - intros [[b j] p] He. specialize (J6 _ He). cbn in *.
+    destruct J6 as (R & x & up & F1 & F2 & F3). split; [exact R|]. exists x, up.
+    split; [exact F1|]. split; [apply Hfu; exact F2|].
+    intros Hp. destruct (F3 Hp) as (y & Fy & Cy). exists y. split; [exact Fy|]. unfold jcommitted in *. rewrite Hc. exact Cy.
+  - exact J7.
+  - intros x Hx. apply (job_ok_committed_ext s); auto.
+  - rewrite Eu. intros u Hu Hcu. apply in_app_or in Hu. destruct Hu as [Hu|[<-|[]]]; [apply (J9 u Hu Hcu)|].
+    change (root_staged s' (u_batch n) (u_id n)) with (root_staged s (u_batch n) (u_id n)).
+    change (n_jobs_of s' (u_batch n) (u_id n)) with (n_jobs_of s (u_batch n) (u_id n)).
+    rewrite (a_staged0 _ A _ _ Hnone), (n_jobs_of_zero s _ _ J Hnone). reflexivity.
+Qed.
+
+Lemma DAux_add_update s n :
+  DAux s -> 0 <= u_ngroups n ->
+  match last_update s (u_batch n) with
+  | Some l => u_start_group n = u_start_group l + u_ngroups l
+  | None => u_start_group n = 1
+  end ->
+  DAux (s <| updates ::= fun l => l ++ [n] |>).
+Proof.
+  intros [A1 A2] Hng Hlast. constructor.
+  - cbn. intros u Hu. apply in_app_or in Hu. destruct Hu as [Hu|[<-|[]]]; [apply (A1 u Hu)|].
+    split; [|exact Hng]. pose proof (last_update_spec s (u_batch n)) as LS.
+    destruct (last_update s (u_batch n)) as [l|].
+    + destruct LS as (Hl & _). pose proof (A1 l Hl). lia.
+    + lia.
+  - intros b u F. change (root_staged _ b u) with (root_staged s b u). apply A2.
+    unfold find_update in *. cbn in F. destruct (find _ (updates s)) as [x|] eqn:F'; [|reflexivity].
+    rewrite (find_app_some _ _ _ _ F') in F. discriminate.
+Qed.
+
+(* the success path of create_update *)
+Definition create_update_row (s : state) (b token n_jobs n_groups : Z) : update :=
+  let '(uid, sg, sj) := match last_update s b with
+                        | Some l => (u_id l + 1, u_start_group l + u_ngroups l, u_start_job l + u_njobs l)
+                        | None => (1, 1, 1)
+                        end in
+  mkUpdate b uid token sj n_jobs sg n_groups false.
+
+Lemma do_create_update_cases s b user token nj ng :
+  fst (do_create_update s b user token nj ng) = s \/
+  (0 <= nj /\ 0 <= ng /\
+   fst (do_create_update s b user token nj ng) = s <| updates ::= fun l => l ++ [create_update_row s b token nj ng] |>).
+Proof.
+  unfold do_create_update, create_update_row.
+  destruct ((nj <? 0) || (ng <? 0)) eqn:V; [left; reflexivity|].
+  apply orb_false_iff in V. destruct V as [V1 V2].
+  destruct (negb _); [left; reflexivity|].
+  match goal with |- context [match (if ?c then _ else _) with _ => _ end] => destruct c end.
+  - destruct (find _ (updates s)); [left; reflexivity|].
+    destruct (find_batch s b) as [bt|]; [|left; reflexivity].
+    destruct (_ || _); [left; reflexivity|]. destruct (marked s b 0); [left; reflexivity|].
+    right. split; [lia|]. split; [lia|]. destruct (last_update s b) as [l|]; reflexivity.
+  - destruct (find_batch s b) as [bt|]; [|left; reflexivity].
+    destruct (_ || _); [left; reflexivity|]. destruct (marked s b 0); [left; reflexivity|].
+    right. split; [lia|]. split; [lia|]. destruct (last_update s b) as [l|]; reflexivity.
+Qed.
+
+Lemma DInv_create_update_aux s b user token nj ng :
+  DInv s -> DAux s -> DInv (fst (do_create_update s b user token nj ng)).
+Proof.
+  intros D A. destruct (do_create_update_cases s b user token nj ng) as [->|(Hj & Hg & ->)]; [exact D|].
+  apply DInv_split in D. destruct D as (J & G & X). apply DInv_split. split; [|split].
+  - apply JInv_add_update; auto.
+    + unfold create_update_row. destruct (last_update s b); reflexivity.
+    + unfold create_update_row. destruct (last_update s b); cbn; lia.
+    + replace (u_batch (create_update_row s b token nj ng)) with b by (unfold create_update_row; destruct (last_update s b); reflexivity).
+      unfold create_update_row. destruct (last_update s b); cbn; split; reflexivity.
+  - apply (GInv_ext s); try reflexivity. exact G.
+  - apply (XInv_ext s); try reflexivity. exact X.
+Qed.
+
+Lemma DAux_create_update s b user token nj ng :
+  DAux s -> DAux (fst (do_create_update s b user token nj ng)).
+Proof.
+  intros A. destruct (do_create_update_cases s b user token nj ng) as [->|(Hj & Hg & ->)]; [exact A|].
+  apply DAux_add_update; auto.
+  - unfold create_update_row. destruct (last_update s b); cbn; lia.
+  - replace (u_batch (create_update_row s b token nj ng)) with b by (unfold create_update_row; destruct (last_update s b); reflexivity).
+    unfold create_update_row. destruct (last_update s b); cbn; reflexivity.
+Qed.
+
+(** The statement asked for; [client_ok] is implied by the model's own validation (validate_batch_update),
+    [DAux] is the part of the auxiliary invariant that [DInv] lacks (see the header). *)
+Lemma DInv_create_update s b user token nj ng :
+  DInv s -> DAux s -> client_ok (CreateUpdate b user token nj ng) = true ->
+  DInv (fst (do_create_update s b user token nj ng)).
+Proof. intros D A _. apply DInv_create_update_aux; assumption. Qed.
+
+(* ------------------------------------------------------------------ create job groups *)
+
+Definition mg_step (b : Z) (acc : Z) (x : group) : Z := if g_batch x =? b then Z.max acc (g_id x) else acc.
+
+Lemma max_group_id_eq s b : max_group_id s b = fold_left (mg_step b) (groups s) (-1).
+Proof. reflexivity. Qed.
+
+Lemma max_group_fold b l : forall acc,
+  let r := fold_left (mg_step b) l acc in
+  acc <= r /\ (forall x, In x l -> g_batch x = b -> g_id x <= r) /\
+  (r = acc \/ exists x, In x l /\ g_batch x = b /\ g_id x = r).
+Proof.
+  induction l as [|y l IH]; intros acc; cbn [fold_left].
+  - split; [lia|]. split; [intros x []|]. left; reflexivity.
+  - specialize (IH (mg_step b acc y)). cbv zeta in IH. destruct IH as (I1 & I2 & I3).
+    set (r := fold_left (mg_step b) l (mg_step b acc y)) in *.
+    unfold mg_step in I1, I3. destruct (g_batch y =? b) eqn:Eb.
+    + split; [lia|]. split.
+      * intros x [<-|Hx] Hb; [lia | apply I2; assumption].
+      * destruct I3 as [I3|(x & Hx & Hb & Hr)].
+        -- destruct (Z.max_spec acc (g_id y)) as [[_ M]|[_ M]].
+           ++ right. exists y. split; [left; reflexivity|]. split; [lia|lia].
+           ++ left. lia.
+        -- right. exists x. split; [right; exact Hx | tauto].
+    + split; [exact I1|]. split.
+      * intros x [<-|Hx] Hb; [lia | apply I2; assumption].
+      * destruct I3 as [I3|(x & Hx & Hb & Hr)]; [left; exact I3|].
+        right. exists x. split; [right; exact Hx | tauto].
+Qed.
+
+Lemma max_group_id_cgr s b g upd parent root :
+  max_group_id (create_group_rows s b g upd parent root) b = Z.max (max_group_id s b) g.
+Proof.
+  rewrite !max_group_id_eq, cgr_groups, fold_left_app. cbn [fold_left]. unfold mg_step at 1. cbn [g_batch g_id].
+  rewrite Z.eqb_refl. reflexivity.
+Qed.
+
+Lemma fold_create_one_group_none b u sg gss : fold_left (create_one_group b u sg) gss None = None.
+Proof. induction gss as [|g r IH]; [reflexivity | exact IH]. Qed.
+
+Definition gspec_ok (g : gspec) : bool :=
+  match gs_parent_abs g with Some p => 0 <=? p | None => 1 <=? gs_parent_rel g end.
+
+Lemma create_one_group_ok s b u sg gs s' :
+  DInv s -> find_batch s b <> None ->
+  sg + gs_id gs - 1 = max_group_id s b + 1 -> 0 <= sg -> gspec_ok gs = true ->
+  create_one_group b u sg (Some s) gs = Some s' ->
+  DInv s' /\ updates s' = updates s /\ staging s' = staging s /\ batches s' = batches s /\
+  max_group_id s' b = sg + gs_id gs - 1.
+Proof.
+  intros D Hb Hmax Hsg Hok. unfold create_one_group. cbv zeta.
+  set (g := sg + gs_id gs - 1) in *.
+  set (parent := match gs_parent_abs gs with Some p => p | None => sg + gs_parent_rel gs - 1 end).
+  destruct (group_cancelled s b parent); [discriminate|].
+  destruct (find_group s b g) eqn:Hn; [discriminate|].
+  destruct (parent <? g) eqn:Hlt; cbn [negb]; [|discriminate].
+  destruct (MAX_JOB_GROUPS_DEPTH <? _); [discriminate|]. intros E. injection E as <-.
+  assert (Hpar : 0 <= parent < g).
+  { split; [|lia]. unfold parent, gspec_ok in *. destruct (gs_parent_abs gs); lia. }
+  pose proof (max_group_fold b (groups s) (-1)) as MG. cbv zeta in MG. rewrite <- max_group_id_eq in MG.
+  destruct MG as (M1 & M2 & M3).
+  split; [|split; [reflexivity|split; [reflexivity|split; [reflexivity|]]]].
+  - apply DInv_create_group_rows; auto; try discriminate.
+    intros g' R. destruct M3 as [M3|(x & Hx & Hxb & Hxg)]; [lia|].
+    rewrite <- Hxb. apply (d_gcontig _ D x Hx). lia.
+  - rewrite max_group_id_cgr. lia.
+Qed.
+
+Lemma create_groups_fold b u sg : forall gss s s',
+  DInv s -> find_batch s b <> None -> 0 <= sg ->
+  contiguous (map gs_id gss) = true -> forallb gspec_ok gss = true ->
+  (forall g0, hd_error gss = Some g0 -> sg + gs_id g0 - 1 = max_group_id s b + 1) ->
+  fold_left (create_one_group b u sg) gss (Some s) = Some s' ->
+  DInv s' /\ updates s' = updates s /\ staging s' = staging s.
+Proof.
+  induction gss as [|g0 r IH]; intros s s' D Hb Hsg Hc Hok Hhd Hf; cbn [fold_left] in Hf.
+  - injection Hf as <-. auto.
+  - cbn [forallb] in Hok. apply andb_true_iff in Hok. destruct Hok as [Hok0 Hokr].
+    destruct (create_one_group b u sg (Some s) g0) as [s1|] eqn:E1.
+    2:{ rewrite fold_create_one_group_none in Hf. discriminate. }
+    destruct (create_one_group_ok s b u sg g0 s1 D Hb (Hhd g0 eq_refl) Hsg Hok0 E1) as (D1 & U1 & S1 & B1 & M1).
+    destruct (IH s1 s' D1) as (D' & U' & S'); auto.
+    + unfold find_batch. rewrite B1. exact Hb.
+    + destruct r as [|g1 r']; [reflexivity|]. cbn [map contiguous] in Hc |- *.
+      apply andb_true_iff in Hc. tauto.
+    + intros g1 Hg1. destruct r as [|g1' r']; [discriminate|]. cbn in Hg1. injection Hg1 as ->.
+      cbn [map contiguous] in Hc. apply andb_true_iff in Hc. destruct Hc as [Hc _]. rewrite M1. lia.
+    + split; [exact D'|]. split; congruence.
+Qed.
+
+Lemma do_create_groups_cases s b u user gss :
+  fst (do_create_groups s b u user gss) = s \/
+  exists up g0 r s', find_update s b u = Some up /\ find_batch s b <> None /\ gss = g0 :: r /\
+    u_start_group up + gs_id g0 - 1 = max_group_id s b + 1 /\
+    fold_left (create_one_group b u (u_start_group up)) gss (Some s) = Some s' /\
+    fst (do_create_groups s b u user gss) = s'.
+Proof.
+  unfold do_create_groups. destruct (is_nil gss); [left; reflexivity|].
+  destruct (find_update s b u) as [up|]; [|left; reflexivity].
+  destruct (find_batch s b) as [bt|] eqn:Fb; [|left; reflexivity].
+  destruct (_ || _); [left; reflexivity|]. destruct (u_committed up); [left; reflexivity|].
+  destruct gss as [|g0 r]; [left; reflexivity|].
+  destruct (u_start_group up + gs_id g0 - 1 =? max_group_id s b + 1) eqn:Hm; [|left; reflexivity]. cbn [negb].
+  destruct (fold_left _ (g0 :: r) (Some s)) as [s'|] eqn:Hf; [|left; reflexivity].
+  right. exists up, g0, r, s'. repeat split; try reflexivity; try assumption; [discriminate | lia].
+Qed.
+
+Lemma DInv_create_groups s b u user gs :
+  DInv s -> DAux s -> client_ok (CreateGroups b u user gs) = true ->
+  DInv (fst (do_create_groups s b u user gs)).
+Proof.
+  intros D A Hc. destruct (do_create_groups_cases s b u user gs) as [->|(up & g0 & r & s' & Fu & Fb & -> & Hm & Hf & ->)]; [exact D|].
+  cbn [client_ok] in Hc. apply andb_true_iff in Hc. destruct Hc as [Hc1 Hc2].
+  apply find_update_sound in Fu. destruct Fu as (Hup & _).
+  pose proof (a_gpos _ A up Hup) as [Hsg _].
+  destruct (create_groups_fold b u (u_start_group up) (g0 :: r) s s' D Fb ltac:(lia) Hc1 Hc2) as (D' & _); auto.
+  intros g0' E. cbn in E. injection E as <-. exact Hm.
+Qed.
+
+Lemma DAux_create_groups s b u user gs :
+  DInv s -> DAux s -> client_ok (CreateGroups b u user gs) = true ->
+  DAux (fst (do_create_groups s b u user gs)).
+Proof.
+  intros D A Hc. destruct (do_create_groups_cases s b u user gs) as [->|(up & g0 & r & s' & Fu & Fb & -> & Hm & Hf & ->)]; [exact A|].
+  cbn [client_ok] in Hc. apply andb_true_iff in Hc. destruct Hc as [Hc1 Hc2].
+  apply find_update_sound in Fu. destruct Fu as (Hup & _).
+  pose proof (a_gpos _ A up Hup) as [Hsg _].
+  destruct (create_groups_fold b u (u_start_group up) (g0 :: r) s s' D Fb ltac:(lia) Hc1 Hc2) as (_ & U' & S'); auto.
+  - intros g0' E. cbn in E. injection E as <-. exact Hm.
+  - apply (DAux_ext s); assumption.
+Qed.
